@@ -222,6 +222,72 @@ def rule_RANGE(ctx):
     return n
 
 
+def rule_TUPLE(ctx):
+    rid = 'D4'
+    ctx.rule(rid, 'range validation: before a tuple declaration is turned into a distribution, '
+             'add_parameter rejects (ValueError / TypeError) a tuple that does not have exactly '
+             'two entries and one whose bounds are not ordered; the array unit_to_physical '
+             'fills is floating point whatever the dtype of the unit-cube input')
+    f = ctx.program.func('Prior.add_parameter')
+    cfg = cfg_of(f)
+    convs = [nn for nn in cfg.nodes if nn.kind == 'stmt' and isinstance(nn.ast, ast.Assign) and
+             isinstance(nn.ast.value, ast.Call) and
+             (dotted(nn.ast.value.func) or '').split('.')[-1] == 'uniform']
+    ctx.require(convs, 'Prior.add_parameter: conversion of a tuple declaration not found')
+    conv = convs[0]
+    dname = conv.ast.targets[0].id if isinstance(conv.ast.targets[0], ast.Name) else 'dist'
+    # rejecting tests that dominate the conversion
+    len_ok = order_ok = False
+    for t in cfg.nodes:
+        if t.kind != 'test' or t.expr is None or not cfg.dominates(t.id, conv.id):
+            continue
+        raises = any(cfg.nodes[s_].kind == 'stmt' and isinstance(cfg.nodes[s_].ast, ast.Raise)
+                     or any(isinstance(cfg.nodes[r_].ast, ast.Raise)
+                            for r_ in cfg.reach(s_) if cfg.nodes[r_].kind == 'stmt' and
+                            not cfg.can_reach(r_, conv.id))
+                     for s_, lab in t.succ if lab in (True, False))
+        if not raises:
+            continue
+        for x in ast.walk(t.expr):
+            if isinstance(x, ast.Compare) and len(x.ops) == 1:
+                sides = [x.left, x.comparators[0]]
+                if any(isinstance(sd, ast.Call) and dotted(sd.func) == 'len' and sd.args and
+                       isinstance(sd.args[0], ast.Name) and sd.args[0].id == dname
+                       for sd in sides) and any(isinstance(sd, ast.Constant) and sd.value == 2
+                                                for sd in sides):
+                    len_ok = True
+                subs = [sd for sd in sides if isinstance(sd, ast.Subscript) and
+                        isinstance(sd.value, ast.Name) and sd.value.id == dname and
+                        isinstance(sd.slice, ast.Constant)]
+                if len(subs) == 2 and {sd.slice.value for sd in subs} == {0, 1} and \
+                        isinstance(x.ops[0], (ast.Lt, ast.LtE, ast.Gt, ast.GtE)):
+                    order_ok = True
+    ctx.ob(rid, 'Prior.add_parameter:tuple-length-checked', len_ok, f.where(conv.ast),
+           'a tuple with other than two entries is rejected before the conversion' if len_ok else
+           'a tuple declaration is converted with `%s` without its length being checked: '
+           '(1,) escapes as IndexError, (0, 1, 5) is accepted with the third entry dropped'
+           % unparse(conv.ast)[:50])
+    ctx.ob(rid, 'Prior.add_parameter:tuple-order-checked', order_ok, f.where(conv.ast),
+           'a range whose upper bound does not exceed the lower one is rejected' if order_ok else
+           'the bounds of a range are not compared: (1, 0) and (2, 2) are accepted and every '
+           'value of that parameter is NaN')
+    # output buffer of unit_to_physical
+    g = ctx.program.func('Prior.unit_to_physical')
+    pts = [p for p in g.params if p != g.self_name][0]
+    bufs = [st for st in walk_no_nested(g.node) if isinstance(st, ast.Assign) and
+            isinstance(st.value, ast.Call) and
+            dotted(st.value.func) in ('np.zeros_like', 'np.empty_like', 'np.ones_like',
+                                      'np.copy', 'np.array') and st.value.args and
+            isinstance(st.value.args[0], ast.Name) and st.value.args[0].id == pts]
+    for st in bufs:
+        typed = any(k.arg == 'dtype' and unparse(k.value) in ('float', 'np.float64', 'np.double')
+                    for k in st.value.keywords)
+        ctx.ob(rid, 'Prior.unit_to_physical:floating-point-output', typed, g.where(st),
+               'the output array is float64 whatever the dtype of the input' if typed else
+               '`%s` inherits the dtype of the input: for an integer array of unit-cube corners '
+               '(0 / 1) every quantile is truncated to an integer' % unparse(st)[:50])
+
+
 def rule_PAIR(ctx):
     rid = 'L1p'
     ctx.rule(rid, 'keys/dists lockstep: every normal-exit path of add_parameter appends exactly '
@@ -398,6 +464,7 @@ def run(ctx):
     rule_DECL(ctx)
     rule_ICDF(ctx)
     rule_RANGE(ctx)
+    rule_TUPLE(ctx)
     rule_A1(ctx)
     ctx.floor('T1', 3, 'rejection exits')
     ctx.floor('T7', 1, 'appends to the key list')
